@@ -40,6 +40,12 @@ def cases(shard, tier):
             for u in UFUNCS:
                 yield [lens, dt, k, u, "reduce"]
                 yield [lens, dt, k, u, "reduce_keepdims"]
+        if np.dtype(dt).kind in "if":
+            # rows whose non-zero entries cancel ([1, -1], [2, -2, 0]): "some entry is non-zero" is not "the sum is non-zero"
+            for op in ("any", "all", "sum", "max", "argmax"):
+                for form in ("method", "func"):
+                    yield [lens, dt, "cancel", op, form]
+            yield [lens, dt, "cancel", "logical_or", "reduce"]
         if dt in ("float32", "float64"):
             # +-inf (exact and order-independent inside a row): a row's result must not depend on the rows before it
             for op in ("sum", "prod", "max", "min", "mean", "any", "argmax", "argmin"):
@@ -79,7 +85,9 @@ def check(case, acc):
             acc.feature("consecutive_empty_rows")
         if size == 0:
             acc.feature("all_rows_empty")
-    if k == "dec":
+    if k == "cancel":
+        flat = np.array(([1, -1, 2, -2, 0, 0, 3, -3] * (size // 8 + 1))[:size], dtype=dt)
+    elif k == "dec":
         flat = np.array(([0.7, 0.3, 0.9, 0.1, 1e17, -0.2, 2.6, 1e-9] * (size // 8 + 1))[:size], dtype=dt)
     elif k == "inf":
         acc.feature("float_inf_pattern")
